@@ -37,6 +37,8 @@ LEAVES = {
     "symbolid": ('<symbol id="s{i}"><rect width="5" height="5"/></symbol>', "", True),
     "symbolanon": ("", '<symbol><rect width="5" height="5"/></symbol>', False),
     "text": ("", '<text x="10" y="50"><tspan>hi</tspan> there</text>', True),
+    "textlink": ("", '<text x="10" y="60">see <a xlink:href="http://example.com/">this</a></text>', True),
+    "textimage": ("", '<text x="10" y="70">x<image width="4" height="4" xlink:href="data:image/png;base64,AAAA"/><animate attributeName="x" to="5"/></text>', True),
     "filter": ('<filter id="f{i}"><feGaussianBlur stdDeviation="2"/></filter>', "", True),
     "mask": ('<mask id="m{i}"><rect width="50" height="50" fill="white"/></mask>', "", True),
     "image": ("", '<image x="0" y="0" width="10" height="10" xlink:href="data:image/png;base64,AAAA"/>', True),
